@@ -29,14 +29,18 @@ def run(chk, prog):
     where = "%s:%s" % (f.file, f.line)
 
     # ---------------------------------------------------------------- (1) first match in configured order
-    fm = [c for c in f.calls if re.search(r"Iterator::find_map$", c.path or "")]
-    picks = [c for c in f.calls if re.search(r"Iterator::(find_map|find|filter_map|position|rposition|rfind|max_by|min_by|last|fold|for_each)$", c.path or "")
+    # accepted spellings of "the first rule whose evaluate() is true": find_map(|r| if r.evaluate() {Some(r.target)} else {None}) and
+    # find(|r| r.evaluate()).map(|r| r.target); any other consumer of the rule slice (rfind, last, max_by, filter_map, fold, ..) is reported
+    SEL = r"Iterator::(find_map|find)$"
+    picks = [c for c in f.calls if re.search(r"Iterator::(find_map|find|filter_map|position|rposition|rfind|max_by|min_by|max_by_key|min_by_key|last|fold|try_fold|for_each|nth)$", c.path or "")
              and "slice::iter::Iter" in (c.full or "")]
+    fm = [c for c in picks if re.search(SEL, c.path or "")]
     ok = len(fm) == 1 and len(picks) == 1
-    chk.instance("first-match", where, "process_request selects with exactly one find_map over the rule slice", ok)
+    chk.instance("first-match", where, "process_request selects with exactly one first-hit search (find_map / find) over the rule slice", ok)
+    sel = fm[0] if ok else None
     if not ok:
         chk.finding("first-match", f.key, "select", "", where,
-                    "process_request no longer selects the connector with a single Iterator::find_map over the rule list (found %s)"
+                    "process_request no longer selects the connector with a single first-hit search over the rule list (found %s)"
                     % [short(c.path) for c in picks])
     else:
         c = fm[0]
@@ -45,48 +49,71 @@ def run(chk, prog):
         paths = [n[2] for n in et.walk(tree) if n[0] == "call"]
         bad = [p for p in paths if ADAPTORS.search(p)]
         has_iter = any(re.search(r"slice::<impl \[T\]>::iter$", p) for p in paths)
-        rules_calls = [n for n in et.walk(tree) if n[0] == "call" and re.search(r"GlobalState::rules(::\{closure#0\})?$", n[2])]
         all_rules_calls = [x for x in f.calls if re.search(r"^GlobalState::rules$", x.name or "")]
         ok = has_iter and not bad and len(all_rules_calls) == 1
-        chk.instance("first-match", c.where(), "find_map receiver is slice::iter() of the guard returned by a single rules() call, no reordering adaptor",
+        chk.instance("first-match", c.where(), "the search runs over slice::iter() of the guard returned by a single rules() call, no reordering adaptor",
                      ok, "chain: %s" % names[:8])
         if not ok:
             chk.finding("first-match", f.key, "iterator-chain", "", c.where(),
                         "the rule iteration is not plain slice::iter() in configured order under one rules() guard (adaptors %s, rules() calls %d)"
                         % ([short(b) for b in bad], len(all_rules_calls)))
-        # closure shape
+        # the predicate closure
         cl = None
         for n in et.walk(et.build(f, c.args[1])):
             if n[0] == "closure":
                 cl = prog.fns.get(f.crate + "::" + n[1])
         if cl is None:
-            chk.anchor_missing("first-match", "find_map closure")
+            chk.anchor_missing("first-match", "selection closure")
         else:
+            from ..flow import returned_on_edge
             ev = [x for x in cl.calls if re.search(r"rules::Rule::evaluate$", x.name or "")]
-            somes, nones = [], []
-            for b in cl.reachable:
-                for st in cl.stmts(b):
-                    if st["k"] == "assign" and st["lhs"][0] == 0 and st["rv"]["k"] == "agg" and st["rv"].get("def", "").endswith("option::Option"):
-                        (somes if st["rv"]["variant"] == "Some" else nones).append(b)
-            ok = len(ev) == 1 and somes and nones
+            ok = len(ev) == 1
             why = ""
+            is_find = c.path.endswith("::find")
             if ok:
                 br = bool_branch(cl, ev[0].dest[0])
-                ok = bool(br) and all(any(edge_dominates(cl, sb, tt, s) for sb, tt, ft in br) for s in somes) and \
-                    all(any(edge_dominates(cl, sb, ft, n) for sb, tt, ft in br) for n in nones)
-                # Some(..) payload is the rule's own target
-                for b in somes:
+                if is_find:
+                    # |r| r.evaluate(ctx): the closure's value is the verdict itself, or true/false exactly on its edges
+                    direct = ev[0].dest == [0]
+                    if not direct:
+                        ok = bool(br) and all(returned_on_edge(cl, sb, tt) == {("const", 1)} and returned_on_edge(cl, sb, ft) == {("const", 0)} for sb, tt, ft in br)
+                        why = "predicate value on the true / false edge of evaluate(): %s" % [(returned_on_edge(cl, sb, tt), returned_on_edge(cl, sb, ft)) for sb, tt, ft in br][:1]
+                else:
+                    vt = [returned_on_edge(cl, sb, tt) for sb, tt, ft in br]
+                    vf = [returned_on_edge(cl, sb, ft) for sb, tt, ft in br]
+                    ok = bool(br) and all(v and all(x[0] == "agg" and x[1] == "Some" for x in v) for v in vt) and \
+                        all(v and all(x[0] == "agg" and x[1] == "None" for x in v) for v in vf)
+                    why = "closure value on the true edge %s, on the false edge %s" % (vt[:1], vf[:1])
+            # the selected rule is turned into its own target
+            tgt_ok = False
+            if ok and not is_find:
+                for b in cl.reachable:
                     for st in cl.stmts(b):
-                        if st["k"] == "assign" and st["lhs"][0] == 0:
+                        if st["k"] == "assign" and st["lhs"][0] == 0 and st["rv"]["k"] == "agg" and st["rv"].get("variant") == "Some":
                             tr = cl.trace(op_base(st["rv"]["ops"][0]), through_calls=[r"clone::Clone::clone$"])
-                            txt = str(tr)
-                            if "f:target" not in txt:
-                                ok = False
-                                why = "Some(..) payload is not the rule's target field"
-            chk.instance("first-match", "%s:%s" % (cl.file, cl.line), "closure returns Some(rule.target) exactly on the true edge of Rule::evaluate", ok, why)
+                            tgt_ok = "f:target" in str(tr)
+            elif ok:
+                maps = [x for x in f.calls if re.search(r"Option::<T>::map$", x.path or "") and op_base(x.args[0]) is not None and
+                        any(k == "call" and info is c for k, info in f.trace(op_base(x.args[0])))]
+                for mp in maps:
+                    for n in et.walk(et.build(f, mp.args[1])):
+                        if n[0] == "closure":
+                            mc = prog.fns.get(f.crate + "::" + n[1])
+                            if mc is not None:
+                                for (b, i, rv) in mc.defs.get(0, []):
+                                    src = mc.call_at(b) if i == "term" else None
+                                    txt = str(mc.trace(op_base(src.args[0]), through_calls=[r"clone::Clone::clone$"])) if src is not None and src.args else str(rv)
+                                    if "f:target" in txt:
+                                        tgt_ok = True
+                    if tgt_ok:
+                        sel = mp       # the selection result is the mapped Option
+            if ok and not tgt_ok:
+                ok = False
+                why = "the selected rule is not turned into its own `target` field"
+            chk.instance("first-match", "%s:%s" % (cl.file, cl.line), "the search predicate is Rule::evaluate and the hit yields rule.target", ok, why)
             if not ok:
                 chk.finding("first-match", cl.key, "closure", "", "%s:%s" % (cl.file, cl.line),
-                            "the find_map closure does not return Some(rule.target) exactly when Rule::evaluate is true (%s)" % why)
+                            "the rule search does not select exactly the first rule whose Rule::evaluate is true and yield its target (%s)" % why)
 
     # ---------------------------------------------------------------- (2) deny dominance
     conn = [c for c in f.calls if re.search(r"connectors::Connector::connect$", c.path or "")]
@@ -95,36 +122,62 @@ def run(chk, prog):
     one = [c for c in f.calls if re.search(r"context::ContextRefOps::on_error$", c.path or "")]
     chk.floor("deny", len(conn), 1, "Connector::connect call in process_request")
     chk.floor("deny", len(one), 4, "on_error calls in process_request")
-    isn = [c for c in f.calls if re.search(r"Option::<T>::is_none$", c.path or "")]
     hf = [c for c in f.calls if re.search(r"connectors::Connector::has_feature$", c.path or "")]
     payload = set(c.bb for c in conn + onc + cpb)
+    from ..flow import option_tests
+    # everything derived from the selection result: Option<Option<Arc<dyn Connector>>> and its payloads
+    derived = set()
+    if sel is not None:
+        derived, _ = flow_forward(f, [sel.dest[0]], [r"Option::<T>::(unwrap|expect|map|flatten|and_then|as_ref|as_deref|cloned|unwrap_or_else)$", r"clone::Clone::clone$",
+                                                     r"ops::deref::Deref::deref$", r"Try::branch$"])
+        derived = set(derived)
+        # payload bindings of patterns:  Some(Some(c)) => c
+        changed = True
+        while changed:
+            changed = False
+            for b in f.reachable:
+                for st in f.stmts(b):
+                    if st["k"] == "assign" and len(st["lhs"]) == 1 and st["lhs"][0] not in derived:
+                        rv = st["rv"]
+                        p = None
+                        if rv["k"] == "use" and "k" not in rv["a"]:
+                            p = op_place(rv["a"])
+                        elif rv["k"] in ("ref", "discr"):
+                            p = rv["p"]
+                        if p and p[0] in derived:
+                            derived.add(st["lhs"][0])
+                            changed = True
     guards = []
-    for g in isn:
-        for (sb, tt, ft) in bool_branch(f, g.dest[0]):
-            guards.append(("is_none(%s)" % (resolve_place(f, op_base(g.args[0]))[0] or "?"), sb, ft, tt))
+    for o in option_tests(f, derived):
+        guards.append(("selected(%s)" % "/".join(str(x) for x in o["place"][1:]) if len(o["place"]) > 1 else "selected", o["pos"][0], o["pos"][1], o["neg"][1]))
     for g in hf:
         for (sb, tt, ft) in bool_branch(f, g.dest[0]):
             guards.append(("has_feature", sb, tt, ft))
-    n_is = 0
+    none_edges = set((sb, bad) for (name, sb, good, bad) in guards if name.startswith("selected"))
+    chk.floor("deny", len(none_edges), 2, "None edges of the selection result (no rule matched / rule denies)")
     for c in conn:
+        recv = op_base(c.args[0])
+        tr = f.trace(recv, through_calls=[r"clone::Clone::clone$", r"ops::deref::Deref::deref$", r"Option::<T>::(unwrap|expect)$"]) if recv is not None else []
+        recv_ok = recv in derived or any((k in ("ref", "place") and info[0] in derived) or (k == "call" and info.dest and info.dest[0] in derived) for k, info in tr)
         doms = [(name, sb, good, bad) for (name, sb, good, bad) in guards if edge_dominates(f, sb, good, c.bb)]
         names = sorted(set(d[0] for d in doms))
-        n_is = len([n for n in names if n.startswith("is_none")])
-        ok = n_is >= 2 and "has_feature" in names
-        chk.instance("deny", c.where(), "connect is dominated by both Some edges and the has_feature true edge", ok, "dominating guards: %s" % names)
+        ok = recv_ok and "has_feature" in names
+        chk.instance("deny", c.where(), "connect runs on the connector taken out of the selection result, after the has_feature true edge", ok,
+                     "receiver derived from the selection: %s; dominating guards: %s" % (recv_ok, names))
         if not ok:
             chk.finding("deny", f.key, "connect-dominance", "", c.where(),
-                        "Connector::connect can be reached without passing %s (dominating guards: %s): a denied or unsupported "
-                        "request can open an upstream connection" % ("both not-None edges and the feature gate", names))
-        for (name, sb, good, bad) in doms:
-            r = f.reach_from([bad])
-            leak = r & payload
-            okd = not leak and must_pass(f, [bad], [x.bb for x in one], f.returns())
-            chk.instance("deny", "%s:bb%d" % (f.file, sb), "deny edge of %s returns through on_error without connect/on_connect/copy_bidi" % name, okd)
-            if not okd:
-                chk.finding("deny", f.key, "deny-edge", name, where,
-                            "after the deny edge of %s process_request can still reach %s or return without on_error" %
-                            (name, "connect/on_connect/copy_bidi" if leak else "the end"))
+                        "Connector::connect is not provably called on the connector the rule search selected, behind the feature gate "
+                        "(receiver derived from the selection: %s; dominating guards: %s): a denied or unsupported request can open an upstream connection"
+                        % (recv_ok, names))
+    for (name, sb, good, bad) in guards:
+        r = f.reach_from([bad])
+        leak = r & payload
+        okd = not leak and must_pass(f, [bad], [x.bb for x in one], f.returns())
+        chk.instance("deny", "%s:bb%d" % (f.file, sb), "deny edge of %s returns through on_error without connect/on_connect/copy_bidi" % name, okd)
+        if not okd:
+            chk.finding("deny", f.key, "deny-edge", name, where,
+                        "after the deny edge of %s process_request can still reach %s or return without on_error" %
+                        (name, "connect/on_connect/copy_bidi" if leak else "the end"))
     # ---------------------------------------------------------------- (3) who may call
     for pat, allowed, label in [
         (r"connectors::Connector::connect$", r"^process_request|LoadBalanceConnector as connectors::Connector>::connect", "Connector::connect"),
@@ -142,52 +195,45 @@ def run(chk, prog):
                             "otherwise rules are bypassed" % (label, c.fn.path))
 
     # ---------------------------------------------------------------- (4) Rule::evaluate
+    # decided on values, not on spelling: over the executions that take the Err edge of Filter::evaluate the function returns the
+    # constant false, over those that find no filter it returns the constant true, otherwise the filter's own verdict
+    from ..flow import returned_on_edge, option_tests, discr_branch
     re_ = prog.one(r"^rules::Rule::evaluate$")
     ev = [c for c in re_.calls if re.search(r"rules::filter::Filter::evaluate$", c.name or "")]
-    ret_l = [i for i, l in enumerate(re_.locals) if l.get("name") == "ret"]
-    ok = len(ev) == 1 and len(ret_l) >= 1
-    if not ok:
-        chk.anchor_missing("evaluate", "Rule::evaluate shape (Filter::evaluate call / `ret`)")
+    if len(ev) != 1:
+        chk.anchor_missing("evaluate", "Rule::evaluate calls Filter::evaluate once")
     else:
-        rl = ret_l[0]
-        defs = re_.defs.get(rl, [])
-        isn2 = [c for c in re_.calls if re.search(r"Option::<T>::is_none$", c.path or "")]
-        consts = {}
-        for (b, i, rv) in defs:
-            if i != "term" and rv["k"] == "use":
-                k = op_const(rv["a"])
-                if k is not None and "int" in k:
-                    consts[b] = bool(k["int"])
-        # Err arm -> false: block dominated by the Err(1) edge of a switch on discriminant of the evaluate result
-        from ..flow import discr_branch
-        err_false = False
+        err_vals, ok_vals = set(), set()
         for (sb, targets, other) in discr_branch(re_, ev[0].dest[0]):
             errt = targets.get(1, other if 0 in targets else None)
-            for b, v in consts.items():
-                if v is False and errt is not None and edge_dominates(re_, sb, errt, b):
-                    err_false = True
-                if v is True and errt is not None and edge_dominates(re_, sb, errt, b):
-                    err_false = False
-        none_true = False
-        for g in isn2:
-            for (sb, tt, ft) in bool_branch(re_, g.dest[0]):
-                for b, v in consts.items():
-                    if v is True and edge_dominates(re_, sb, tt, b):
-                        none_true = True
-        chk.instance("evaluate", "%s:%s" % (re_.file, re_.line), "filter evaluation error counts as no match", err_false)
-        chk.instance("evaluate", "%s:%s" % (re_.file, re_.line), "a rule without filter matches", none_true)
+            okt = targets.get(0, other if 1 in targets else None)
+            if errt is not None:
+                err_vals |= returned_on_edge(re_, sb, errt)
+            if okt is not None:
+                ok_vals |= returned_on_edge(re_, sb, okt)
+        for o in option_tests(re_, {ev[0].dest[0]}):
+            if o["kind"] == "Result":
+                err_vals |= returned_on_edge(re_, *o["pos"])
+                ok_vals |= returned_on_edge(re_, *o["neg"])
+        err_false = bool(err_vals) and err_vals == {("const", 0)}
+        ok_payload = bool(ok_vals) and all(v[0] in ("place", "call") and (v[0] == "call" or v[1][0] == ev[0].dest[0]) for v in ok_vals)
+        none_vals = set()
+        for o in option_tests(re_):
+            if o["kind"] in ("Option", "?") and "f:filter" in str(o["place"]) + str(re_.trace(o["root"])):
+                none_vals |= returned_on_edge(re_, *o["neg"])
+        none_true = bool(none_vals) and none_vals == {("const", 1)}
+        where_e = "%s:%s" % (re_.file, re_.line)
+        chk.instance("evaluate", where_e, "filter evaluation error counts as no match", err_false, "returned on the Err edge: %s" % sorted(map(str, err_vals)))
+        chk.instance("evaluate", where_e, "a rule without filter matches", none_true, "returned when there is no filter: %s" % sorted(map(str, none_vals)))
+        chk.instance("evaluate", where_e, "otherwise Rule::evaluate returns the filter's verdict", ok_payload, "returned on the Ok edge: %s" % sorted(map(str, ok_vals))[:3])
         if not err_false:
-            chk.finding("evaluate", re_.key, "err-arm", "", "%s:%s" % (re_.file, re_.line),
-                        "Rule::evaluate no longer yields false when the filter fails to evaluate")
+            chk.finding("evaluate", re_.key, "err-arm", "", where_e,
+                        "Rule::evaluate no longer yields false when the filter fails to evaluate (it can return %s)" % sorted(map(str, err_vals)))
         if not none_true:
-            chk.finding("evaluate", re_.key, "no-filter", "", "%s:%s" % (re_.file, re_.line),
-                        "Rule::evaluate no longer yields true for a rule without filter")
-        # the function returns `ret`
-        rets = [rv for (b, i, rv) in re_.defs.get(0, []) if i != "term"]
-        okr = any(rv["k"] == "use" and op_base(rv["a"]) == rl for rv in rets)
-        chk.instance("evaluate", "%s:%s" % (re_.file, re_.line), "Rule::evaluate returns the computed verdict", okr)
-        if not okr:
-            chk.finding("evaluate", re_.key, "return", "", "%s:%s" % (re_.file, re_.line), "Rule::evaluate does not return the verdict it computed")
+            chk.finding("evaluate", re_.key, "no-filter", "", where_e,
+                        "Rule::evaluate no longer yields true for a rule without filter (it can return %s)" % sorted(map(str, none_vals)))
+        if not ok_payload:
+            chk.finding("evaluate", re_.key, "return", "", where_e, "Rule::evaluate does not return the verdict the filter computed (%s)" % sorted(map(str, ok_vals))[:3])
 
     # ---------------------------------------------------------------- (5) "deny"
     sr = prog.body_of(prog.one(r"^GlobalState::set_rules$"))
@@ -317,11 +363,18 @@ def run(chk, prog):
         chk.finding("cidr", g.key, "argument-order", "", "%s:%s" % (g.file, g.line),
                     "cidr_match no longer parses its first argument as the address and its second as the network (%s)" % why)
     # parse failure -> false
-    iserr = [c for c in g.calls if re.search(r"Result::<T, E>::is_err$", c.path or "")]
-    okf = len(iserr) == 2
+    err_edges = []
+    for pc in parses:
+        roots = {pc.dest[0]}
+        tr_, _c = flow_forward(g, [pc.dest[0]], [])
+        roots |= set(tr_)
+        es = [o for o in option_tests(g, roots) if o["kind"] in ("Result", "?")]
+        if es:
+            err_edges.append((es[0]["pos"][0], es[0]["pos"][1], es[0]["neg"][1]))
+    okf = len(err_edges) == 2
     if okf:
-        for c in iserr:
-            for (sb, tt, ft) in bool_branch(g, c.dest[0]):
+        for (sb, tt, ft) in err_edges:
+            if True:
                 region = g.reach_from([tt], avoid=[ft]) - g.reach_from([ft], avoid=[tt])
                 # the region converts const false into the result
                 vals = []
